@@ -68,7 +68,8 @@ def run_stream(sources: list[tuple[str, str]], opts: tuple[bool, bool, bool]):
     sources (fields assigned in place, or a new Options object assigned, alternating)"""
     per_source = isinstance(opts, list)
     first = opts[0] if per_source and opts else (True, True, True) if per_source else opts
-    ge = GherkinEvents(GherkinEvents.Options(print_source=first[0], print_ast=first[1], print_pickles=first[2]))
+    # (the three options are documented in this order; both ways of writing them are used)
+    ge = GherkinEvents(GherkinEvents.Options(print_source=first[0], print_ast=first[1], print_pickles=first[2]) if len(sources) % 2 else GherkinEvents.Options(first[0], first[1], first[2]))
     out = []
     for k, (uri, data) in enumerate(sources):
         if per_source and k > 0 and opts[k] != opts[k - 1]:
